@@ -33,7 +33,7 @@ def gen_unit_spec(r, name, is_async, max_pre=3, max_post=2, max_snap=2, forms=Tr
     return u
 
 
-def gen_world(r, is_async, nfuncs=(1, 2), with_class=0.6, forms=True, async_methods=None, max_invs=2, mixed=False):
+def gen_world(r, is_async, nfuncs=(1, 2), with_class=0.6, forms=True, async_methods=None, max_invs=2, mixed=False, subclass=0.0):
     w = {"funcs": [], "classes": [], "objects": []}
     for i in range(r.randint(*nfuncs)):
         fa = is_async and not (mixed and r.random() < 0.4)
@@ -55,43 +55,69 @@ def gen_world(r, is_async, nfuncs=(1, 2), with_class=0.6, forms=True, async_meth
             if cs["invs"] and r.random() < 0.4:
                 o["flags"] = {"K0/inv%d" % r.randrange(len(cs["invs"])): False}
             w["objects"].append(o)
+        if r.random() < subclass:
+            k1 = {"name": "K1", "base": "K0", "methods": [], "invs": []}
+            if r.random() < 0.5:
+                k1["init"] = {"super": r.choice(["first", "last"])}
+            for m in cs["methods"]:
+                if r.random() < 0.6:
+                    # an override may add preconditions only if the base declares some (Liskov)
+                    ov = gen_unit_spec(r, m["name"], bool(m.get("async")), max_pre=2 if m.get("pre") else 0, max_post=1, max_snap=1, forms=forms, kind="method")
+                    k1["methods"].append(ov)
+            if r.random() < 0.4:
+                k1["methods"].append(gen_unit_spec(r, "m9", am, max_pre=1, max_post=1, max_snap=0, forms=forms, kind="method"))
+            for i in range(r.randint(0, 1)):
+                k1["invs"].append({"check_on": r.choice(["CALL", "ALL"])})
+            w["classes"].append(k1)
+            o = {"name": "o9", "cls": "K1"}
+            w["objects"].append(o)
     return w
 
 
 def units_of(world):
-    """All callable (fn, obj) targets with their spec, owner name and async flag."""
+    """All callable (fn, obj) targets with their spec, owner name and async flag (inheritance-aware)."""
     res = []
     for f in world.get("funcs", ()):
-        res.append({"fn": f["name"], "obj": None, "owner": f["name"], "spec": f, "async": bool(f.get("async")), "invs": []})
-    for c in world.get("classes", ()):
-        for o in world.get("objects", ()):
-            if o["cls"] != c["name"]:
-                continue
+        res.append({"fn": f["name"], "obj": None, "owner": f["name"], "spec": f, "async": bool(f.get("async")), "invs": [], "chain": [(f["name"], f)]})
+    cspec = {c["name"]: c for c in world.get("classes", ())}
+
+    def mro(cname):
+        out = []
+        while cname:
+            out.append(cspec[cname])
+            cname = cspec[cname].get("base")
+        return out  # most derived first
+
+    for o in world.get("objects", ()):
+        chain_cls = mro(o["cls"])
+        invs = []
+        for c in reversed(chain_cls):
+            invs += ["%s/inv%d" % (c["name"], i) for i in range(len(c.get("invs", ())))]
+        names = []
+        for c in chain_cls:
             for m in c.get("methods", ()):
-                if m.get("kind", "method") != "method":
-                    continue
-                res.append(
-                    {
-                        "fn": m["name"],
-                        "obj": o["name"],
-                        "owner": "%s.%s" % (c["name"], m["name"]),
-                        "spec": m,
-                        "async": bool(m.get("async")),
-                        "invs": ["%s/inv%d" % (c["name"], i) for i in range(len(c.get("invs", ())))],
-                    }
-                )
+                if m.get("kind", "method") == "method" and m["name"] not in names:
+                    names.append(m["name"])
+        for mn in names:
+            chain = []
+            for c in reversed(chain_cls):
+                for m in c.get("methods", ()):
+                    if m["name"] == mn and m.get("kind", "method") == "method":
+                        chain.append(("%s.%s" % (c["name"], mn), m))
+            owner, spec = chain[-1]
+            res.append({"fn": mn, "obj": o["name"], "owner": owner, "spec": spec, "async": bool(spec.get("async")), "invs": invs, "chain": chain})
     return res
 
 
 def site_ids(u):
-    s = u["spec"]
     ids = []
-    for i, c in enumerate(s.get("pre", ())):
-        ids.append(("%s/pre%d" % (u["owner"], i), "pre", c))
-    for i, c in enumerate(s.get("snaps", ()) if s.get("post") else ()):
-        ids.append(("%s/snap%d" % (u["owner"], i), "snap", c))
-    for i, c in enumerate(s.get("post", ())):
-        ids.append(("%s/post%d" % (u["owner"], i), "post", c))
+    chain = u.get("chain") or [(u["owner"], u["spec"])]
+    for role, key in (("pre", "pre"), ("snaps", "snap"), ("post", "post")):
+        for owner, s in chain:
+            if role == "snaps" and not s.get("post"):
+                continue
+            for i, c in enumerate(s.get(role, ())):
+                ids.append(("%s/%s%d" % (owner, key, i), key, c))
     return ids
 
 
